@@ -71,6 +71,8 @@ func (r *router) startQuicServer(cfg *ServerConfig) (*quicServer, error) {
 	s := &quicServer{
 		r:           r,
 		l:           l,
+		qt:          qt,
+		uc:          uc,
 		idleTimeout: idleTimeout,
 		logger:      r.subLoggerForServer("server_quic", cfg.Tag),
 	}
@@ -90,6 +92,8 @@ func (r *router) startQuicServer(cfg *ServerConfig) (*quicServer, error) {
 type quicServer struct {
 	r           *router
 	l           *quic.Listener
+	qt          *quic.Transport
+	uc          net.PacketConn // quic.Transport does not close a Conn it did not create
 	idleTimeout time.Duration
 	logger      *zerolog.Logger
 
@@ -191,6 +195,8 @@ func (s *quicServer) Close() error {
 	s.closeOnce.Do(func() {
 		s.closed.Store(true)
 		s.l.Close()
+		s.qt.Close()
+		s.uc.Close()
 	})
 	return nil
 }
